@@ -593,3 +593,177 @@ def opaque_deme_calls(ctx: Ctx, f: FuncInfo, within: ast.AST, attr: str) -> list
         if any(any(isinstance(x, ast.Attribute) and x.attr == attr for x in ast.walk(t.node)) for t in cs.targets):
             out.append(c)
     return out
+
+
+def dict_alternatives(ctx: Ctx, f: FuncInfo, e: ast.AST, _depth: int = 0, _bind: dict | None = None):
+    """The dictionaries an expression can denote, as a list of {constant key: value expression} (one per reaching
+    definition / branch), or None when it cannot be followed.  Understood: dict literals incl. `**other`, `dict(other, k=v)`,
+    `other.copy()`, `a | b`, locals (every definition is an alternative; later `name[k] = v` stores are added - a store under
+    `if P is not None` / `if P:` for a parameter P of a helper is added only when the call passes P), and calls of a helper
+    (same class or module) that returns one local dictionary.  `_bind`: parameter -> argument expression or None (not passed)."""
+    from ..core import local_defs, parents_map
+
+    if _depth > 9:
+        return None
+    bind = _bind or {}
+
+    def sub(x):
+        class S(ast.NodeTransformer):
+            def visit_Name(self, node):
+                if isinstance(node.ctx, ast.Load) and bind.get(node.id) is not None:
+                    return bind[node.id]
+                return node
+
+        import copy
+
+        return S().visit(copy.deepcopy(x)) if bind else x
+
+    if isinstance(e, ast.Dict):
+        alts = [{}]
+        for k, v in zip(e.keys, e.values):
+            if k is None:
+                inner = dict_alternatives(ctx, f, v, _depth + 1, bind)
+                if inner is None:
+                    return None
+                alts = [dict(a, **i) for a in alts for i in inner]
+            elif isinstance(k, ast.Constant):
+                for a in alts:
+                    a[k.value] = sub(v)
+            else:
+                return None
+        return alts
+    if isinstance(e, ast.Call) and norm(e.func) == "dict":
+        alts = [{}]
+        if e.args:
+            inner = dict_alternatives(ctx, f, e.args[0], _depth + 1, bind)
+            if inner is None:
+                return None
+            alts = [dict(i) for i in inner]
+        for k in e.keywords:
+            if k.arg is None:
+                inner = dict_alternatives(ctx, f, k.value, _depth + 1, bind)
+                if inner is None:
+                    return None
+                alts = [dict(a, **i) for a in alts for i in inner]
+            else:
+                for a in alts:
+                    a[k.arg] = sub(k.value)
+        return alts
+    if isinstance(e, ast.Call) and isinstance(e.func, ast.Attribute) and e.func.attr == "copy" and not e.args:
+        return dict_alternatives(ctx, f, e.func.value, _depth + 1, bind)
+    if isinstance(e, ast.BinOp) and isinstance(e.op, ast.BitOr):
+        l, r = dict_alternatives(ctx, f, e.left, _depth + 1, bind), dict_alternatives(ctx, f, e.right, _depth + 1, bind)
+        if l is None or r is None:
+            return None
+        return [dict(a, **b) for a in l for b in r]
+    if isinstance(e, ast.Name):
+        if e.id in bind:
+            return dict_alternatives(ctx, f, bind[e.id], _depth + 1, None) if bind[e.id] is not None else None
+        defs = [d for d in local_defs(f).get(e.id, []) if not isinstance(d, ast.AugAssign)]
+        if not defs:
+            return None
+        alts = []
+        for d in defs:
+            inner = dict_alternatives(ctx, f, d, _depth + 1, bind)
+            if inner is None:
+                return None
+            alts.extend(inner)
+        par = parents_map(f.node)
+        params = set(f.params())
+        for n in body_walk(f.node):
+            if isinstance(n, ast.Assign) and len(n.targets) == 1 and isinstance(n.targets[0], ast.Subscript) and norm(n.targets[0].value) == e.id and isinstance(n.targets[0].slice, ast.Constant):
+                present = True
+                cur = n
+                while id(cur) in par and present is True:
+                    p = par[id(cur)]
+                    if isinstance(p, ast.If):
+                        t = p.test
+                        neg = cur in p.orelse
+                        pname = None
+                        if isinstance(t, ast.Compare) and len(t.ops) == 1 and isinstance(t.left, ast.Name) and isinstance(t.comparators[0], ast.Constant) and t.comparators[0].value is None and isinstance(t.ops[0], (ast.IsNot, ast.NotEq)):
+                            pname = t.left.id
+                        elif isinstance(t, ast.Name):
+                            pname = t.id
+                        if pname is not None and pname in params and pname in bind and not neg:
+                            a_ = bind[pname]
+                            present = a_ is not None and not (isinstance(a_, ast.Constant) and a_.value is None)
+                            if present and not (isinstance(a_, (ast.Attribute, ast.Subscript, ast.List, ast.Tuple, ast.Call, ast.BinOp)) or (isinstance(a_, ast.Constant) and a_.value is not None)):
+                                present = None
+                        else:
+                            present = None  # a condition this reader does not evaluate
+                    cur = p
+                if present is True:
+                    for a in alts:
+                        a[n.targets[0].slice.value] = sub(n.value)
+                elif present is None:
+                    for a in alts:
+                        a.setdefault(n.targets[0].slice.value, ("maybe", sub(n.value)))
+        return alts
+    if isinstance(e, ast.Call):
+        cs = next((c_ for c_ in ctx.res.callsites(f) if c_.node is e), None)
+        tg = cs.targets if cs is not None else []
+        if len(tg) != 1:
+            return None
+        h = tg[0]
+        rets = [r for r in body_walk(h.node) if isinstance(r, ast.Return) and r.value is not None]
+        if len(rets) != 1:
+            return None
+        a = h.node.args
+        names = [x.arg for x in a.posonlyargs + a.args]
+        if h.cls is not None and names and not any(norm(d) == "staticmethod" for d in h.node.decorator_list):
+            names = names[1:]
+        hb = {n_: None for n_ in names + [x.arg for x in a.kwonlyargs]}
+        for n_, v in zip(names, e.args):
+            hb[n_] = sub(v)
+        extra = {}
+        for k in e.keywords:
+            if k.arg in hb:
+                hb[k.arg] = sub(k.value)
+            elif k.arg is not None and a.kwarg is not None:
+                extra[k.arg] = sub(k.value)
+            else:
+                return None
+        if a.kwarg is not None:
+            hb[a.kwarg.arg] = ast.Dict(keys=[ast.Constant(value=k_) for k_ in extra], values=list(extra.values()))
+        return dict_alternatives(ctx, h, rets[0].value, _depth + 1, hb)
+    return None
+
+
+def foreign_history_writes(ctx: Ctx, rule: str, why: str):
+    """A deme's `_history` is written only by the deme's own methods (through `self`).  Any other code that appends to /
+    rebinds / edits `<deme>._history` records generations the deme never bred (or removes some): -> obligations (one OK
+    summary when there is none)."""
+    from ..core import VIOLATION as _V
+
+    MUT = ("append", "extend", "insert", "pop", "remove", "clear", "reverse", "sort")
+    base = ctx.prog.cls("AbstractDeme")
+    obs = []
+    n = 0
+    for f in ctx.prog.all_functions():
+        if f.name == "<module>":
+            continue
+        own = f.cls is not None and (f.cls is base or ctx.prog.is_subclass(f.cls, base))
+        sn = (f.self_name() if f.parent is None else f.parent.self_name()) if own else None
+        for x in body_walk(f.node):
+            tgt = None
+            if isinstance(x, ast.Call) and isinstance(x.func, ast.Attribute) and x.func.attr in MUT:
+                tgt = x.func.value
+            elif isinstance(x, (ast.Assign, ast.AugAssign, ast.Delete)):
+                for t in (x.targets if isinstance(x, (ast.Assign, ast.Delete)) else [x.target]):
+                    tgt = t
+                    while isinstance(tgt, ast.Subscript):
+                        tgt = tgt.value
+                    if isinstance(tgt, ast.Attribute) and tgt.attr == "_history":
+                        break
+                    tgt = None
+            while isinstance(tgt, ast.Subscript):
+                tgt = tgt.value
+            if not (isinstance(tgt, ast.Attribute) and tgt.attr == "_history"):
+                continue
+            n += 1
+            if own and isinstance(tgt.value, ast.Name) and tgt.value.id == sn:
+                continue
+            obs.append(ctx.ob(rule, f, x, status=_V, detail=f"{f.short} writes another object's history (`{norm(x)[:70]}`): {why}", construct=f"foreign-history-write:{f.short}"))
+    if not obs:
+        obs.append(ctx.ob(rule, None, None, subject="pyhms", loc="-", detail=f"every one of the {n} writes to a `_history` is made by the deme itself through `self`", construct="foreign-history-write"))
+    return obs
